@@ -364,6 +364,12 @@ class PointTier(textgrid_tier.TextgridTier):
 
         self.sort()
 
+        if self._entries[0][0] < self.minTimestamp:
+            self.minTimestamp = self._entries[0][0]
+
+        if self._entries[-1][0] > self.maxTimestamp:
+            self.maxTimestamp = self._entries[-1][0]
+
         if len(matchList) != 0:
             collisionReporter(
                 errors.CollisionError,
